@@ -868,12 +868,7 @@ func TestC12TCPInstancesWithDifferentRules(t *testing.T) {
 		}
 	}()
 	hx.Check(t, hx.Scale(60, 600), func(t *rapid.T) {
-		dead, err := hx.Listen("tcp", "127.0.0.1:0")
-		if err != nil {
-			t.Skip("no port")
-		}
-		deadAddr := dead.Addr().String()
-		dead.Close() // nothing listens there any more: dials are refused
+		deadAddr := hx.FreeAddr() // nothing listens there: dials are refused
 		ln, err := hx.Listen("tcp", "127.0.0.1:0")
 		if err != nil {
 			t.Skip("no port")
